@@ -38,6 +38,40 @@ var c15Values = []struct {
 	{"*Block", c15BlockPtr}, {"[]int", []int{1}}, {"map", map[string]int{"a": 1}},
 }
 
+// c15WideBlock: a block "t" with w keys f0..f(w-2) + a nested block "in" built the same way, three levels.
+func c15WideBlock(w int, bad bool) bcl.Block {
+	var mk func(level int) bcl.Block
+	mk = func(level int) bcl.Block {
+		b := bcl.Block{Type: []string{"t", "in", "in"}[2-level], Fields: map[string]any{}}
+		for i := 0; i < w-1; i++ {
+			b.Fields[fmt.Sprintf("f%d", i)] = 10*level + i
+		}
+		if level > 0 {
+			b.Fields["in"] = mk(level - 1)
+		} else {
+			b.Fields[fmt.Sprintf("f%d", w-1)] = 99
+			if bad {
+				b.Fields["f0"] = "not an int"
+			}
+		}
+		return b
+	}
+	return mk(2)
+}
+
+func c15WideType(w, level int) reflect.Type {
+	var fs []reflect.StructField
+	for i := 0; i < w-1; i++ {
+		fs = append(fs, reflect.StructField{Name: fmt.Sprintf("F%d", i), Type: reflect.TypeOf(0)})
+	}
+	if level > 0 {
+		fs = append(fs, reflect.StructField{Name: "In", Type: c15WideType(w, level-1)})
+	} else {
+		fs = append(fs, reflect.StructField{Name: fmt.Sprintf("F%d", w-1), Type: reflect.TypeOf(0)})
+	}
+	return reflect.StructOf(fs)
+}
+
 type myBlock bcl.Block
 
 var c15BlockPtr = &bcl.Block{Type: "in", Fields: map[string]any{"x": 1}}
@@ -92,6 +126,21 @@ func c15Bindings(quick bool) []namedBinding {
 	}
 	// slice bindings: 0..2 blocks
 	out = append(out, namedBinding{"slice:[]", func() bcl.Binding { return bcl.SliceBinding{} }})
+	// wide blocks in wide blocks (more keys than any fixed-size scratch space), one of them with a fault deep inside
+	for _, w := range []int{8, 9, 10, 17} {
+		w := w
+		for _, bad := range []bool{false, true} {
+			bad := bad
+			name := fmt.Sprintf("struct:wide%d", w)
+			if bad {
+				name += "-bad"
+			}
+			out = append(out, namedBinding{name, func() bcl.Binding { return bcl.StructBinding{Value: c15WideBlock(w, bad)} }})
+			out = append(out, namedBinding{"slice:[" + name[7:] + "]", func() bcl.Binding {
+				return bcl.SliceBinding{Value: []bcl.Block{c15WideBlock(w, false), c15WideBlock(w, bad)}}
+			}})
+		}
+	}
 	// bindings of other dynamic types: pointers (nil and not) to the two binding types, wrappers embedding the interface
 	blkX := func() bcl.Block { return bcl.Block{Type: "t", Fields: map[string]any{"x": 1}} }
 	out = append(out,
@@ -232,6 +281,11 @@ func c15Targets() []namedTarget {
 				})
 			}
 		}
+	}
+	for _, w := range []int{8, 9, 10, 17} {
+		w := w
+		add(fmt.Sprintf("*wide%d", w), func() any { return reflect.New(c15WideType(w, 2)).Interface() })
+		add(fmt.Sprintf("*[]wide%d", w), func() any { return reflect.New(reflect.SliceOf(c15WideType(w, 2))).Interface() })
 	}
 	add("*struct{tagged}", func() any {
 		return reflect.New(reflect.StructOf([]reflect.StructField{{Name: "A", Type: reflect.TypeOf(0), Tag: `bcl:"foo_bar"`}, {Name: "FooBar", Type: reflect.TypeOf("")}})).Interface()
@@ -493,7 +547,14 @@ func c15Exec(cs fw.Case, orderMatters bool) *fw.Fail {
 		return "error", ""
 	}
 	x := &vsched.Explorer{Bound: 0, Body: body, Check: check, MaxExec: 5000}
+	if strings.Contains(c.B, "wide") {
+		// 8..17 keys per level: the orders are not enumerable; the first 300 in depth-first order are explored
+		x.MaxExec = 300
+	}
 	x.Explore()
+	if x.Capped {
+		fw.Tally("map_order_explorations_capped", 1)
+	}
 	if x.Infra != "" {
 		return fw.Failf("deterministic replay", "INFRA %s", x.Infra)
 	}
@@ -573,7 +634,7 @@ func init() {
 		Subs:           []*fw.Sub{subC15, subC15Hist},
 		BudgetQuick:    100,
 		BudgetThorough: 1500,
-		Assumptions:    []string{"struct targets with more than 2 generated fields and blocks with more than 2 fields are outside the bound"},
+		Assumptions:    []string{"struct targets with more than 2 generated fields and blocks with more than 2 fields are outside the bound, except the wide family (8/9/10/17 keys on three nesting levels), for which only the first 300 map orders per pair are explored"},
 		Run: func(c *fw.Ctx) {
 			c15Tables()
 			c15Histories(c)
@@ -584,6 +645,10 @@ func init() {
 			for ti, t := range ts {
 				for bi, b := range bs {
 					_, _ = ti, bi
+					// wide bindings meet the wide targets and a few others only; wide targets meet every binding
+					if strings.Contains(b.name, "wide") && !strings.Contains(t.name, "wide") && ti%97 != 0 {
+						continue
+					}
 					c.Do(subC15, &c15Case{B: b.name, T: t.name})
 				}
 				if c.Expired() {
